@@ -30,7 +30,7 @@ class Contract:
         self.params = [(k, parse_type(v)) for k, v in (params or {}).items()]
         self.returns = parse_type(returns) if returns is not None else NONE
         self.requires = list(requires)
-        self.ensures = list(ensures)
+        self.ensures = list(ensures)             # spec strings; (spec, finding id, exclusion) marks a clause with a recorded known finding
         self.raises = {k: list(v) for k, v in (raises or {}).items()}     # exc class -> postconditions on that exit
         self.modifies = list(modifies)       # spec exprs denoting objects (all fields) whose state may change
         self.decreases = decreases
@@ -77,7 +77,7 @@ class Lemma:
         self.name = name
         self.params = [(k, parse_type(v)) for k, v in params]
         self.requires = list(requires)
-        self.ensures = list(ensures)
+        self.ensures = list(ensures)             # spec strings; (spec, finding id, exclusion) marks a clause with a recorded known finding
         self.induct = induct      # name of an int param: IH = lemma at induct-1 (well-founded by requires induct >= base)
         self.hints = list(hints)  # extra instantiations: list of dicts param->expr strings assumed as IH instances (must decrease `induct`)
         self.serves = list(serves)
